@@ -52,7 +52,42 @@ def plan(prop: str, tier: str) -> Plan:
     return Plan(shards=16, cases_per_shard=800, timeout_s=3000, shard_env=[{"PYTHONHASHSEED": h} for h in seeds])
 
 
+def gen_contention(r) -> Dict[str, Any]:
+    """Long history with resting limit orders that compete for scarce per-bar liquidity: the order in which the
+    exchange walks its open orders (also after its periodic re-indexing) decides who gets filled."""
+    npairs = r.choice([1, 2])
+    pairs = [f"{n}/USD" for n in ["AAA", "BBB"][:npairs]]
+    ndays = r.randint(60, 90)
+    bars = {}
+    for i, p in enumerate(pairs):
+        rows = []
+        for d in range(1, ndays + 1):
+            px = 1000 - 6 * d + 50 * i
+            rows.append([d, str(px), str(px + 3), str(px - 3), str(px - 1), r.choice(["4", "6", "10"])])
+        bars[p] = rows
+    setup = [["src", p] for p in pairs] + [["sub", p] for p in pairs]
+    if r.random() < 0.5:
+        setup.append(["order_events"])
+    r.shuffle(setup)
+    scripts: Dict[str, List[List[Dict[str, Any]]]] = {}
+    for p in pairs:
+        inv = []
+        for d in range(ndays + 2):
+            acts = []
+            if d < 6 or r.random() < 0.05:
+                for _ in range(r.choice([1, 2, 3])):
+                    acts.append({"a": "order", "pair": r.choice(pairs), "kind": "limit", "side": "buy",
+                                 "amount": r.choice(["2", "3", "5"]), "px": r.choice(["0.6", "0.65", "0.7"]), "px2": "1",
+                                 "auto_borrow": False, "auto_repay": False})
+            inv.append(acts)
+        scripts["bar:" + p] = inv
+    return {"pairs": pairs, "bars": bars, "setup": setup, "scripts": scripts, "suspend": False, "lend": False,
+            "nsig": 0, "liq": ["25", "0"], "scarce": False, "variant": "contention"}
+
+
 def gen(r) -> Dict[str, Any]:
+    if r.random() < 0.15:
+        return gen_contention(r)
     npairs = r.choice([1, 2, 3, 3, 4, 5, 6])
     names = ["AAA", "BBB", "CCC", "DDD", "EEE", "FFF"][:npairs]
     pairs = [f"{n}/USD" for n in names]
@@ -70,6 +105,8 @@ def gen(r) -> Dict[str, Any]:
     setup = [["src", p] for p in pairs]
     bar_handlers = [p for p in pairs if r.random() < 0.7] or [pairs[0]]
     setup += [["sub", p] for p in bar_handlers]
+    second = [p for p in bar_handlers if r.random() < 0.35]        # a second, independent handler on the same pair
+    setup += [["sub2", p] for p in second]
     order_events = r.random() < 0.6
     if order_events:
         setup.append(["order_events"])
@@ -101,12 +138,14 @@ def gen(r) -> Dict[str, Any]:
     scripts: Dict[str, List[List[Dict[str, Any]]]] = {}
     for p in bar_handlers:
         scripts["bar:" + p] = [actions("bar") for _ in range(ndays + 3)]
+    for p in second:
+        scripts["bar2:" + p] = [actions("bar") if r.random() < 0.5 else [] for _ in range(ndays + 3)]
     if order_events:
         scripts["order_events"] = [actions("order_events") if r.random() < 0.25 else [] for _ in range(60)]
     for k in range(nsig):
         scripts[f"signal:{k}"] = [actions("signal") for _ in range(20)]
     return {"pairs": pairs, "bars": bars, "setup": setup, "scripts": scripts, "suspend": suspend, "lend": lend,
-            "nsig": nsig}
+            "nsig": nsig, "liq": None, "scarce": r.random() < 0.5, "variant": "mixed"}
 
 
 class OneRun:
@@ -136,9 +175,13 @@ class OneRun:
             kw["lending_strategy"] = lending.MarginLoans("USD", default_conditions=lending.MarginLoanConditions(
                 interest_symbol="USD", interest_percentage=D("7"), interest_period=datetime.timedelta(days=365),
                 min_interest=D("0.01"), margin_requirement=D("0.2")))
-        init = {"USD": D("10000000")}
+        if sc.get("liq"):
+            lim, imp = D(sc["liq"][0]), D(sc["liq"][1])
+            kw["liquidity_strategy_factory"] = lambda: liquidity.VolumeShareImpact(lim, imp)
+        # scarce funds: handlers compete for the same balance, so the order in which they run becomes observable
+        init = {"USD": D("1500") if sc.get("scarce") else D("10000000")}
         for p in sc["pairs"]:
-            init[p.split("/")[0]] = D("3")
+            init[p.split("/")[0]] = D("1") if sc.get("scarce") else D("3")
         e = exchange.Exchange(d, init, **kw)
         pairs = {}
         for p in sc["pairs"]:
@@ -240,6 +283,8 @@ class OneRun:
                 e.add_bar_source(src)
             elif step[0] == "sub":
                 e.subscribe_to_bar_events(pairs[step[1]], mk("bar:" + step[1], step[1]))
+            elif step[0] == "sub2":
+                e.subscribe_to_bar_events(pairs[step[1]], mk("bar2:" + step[1], step[1]))
             elif step[0] == "order_events":
                 e.subscribe_to_order_events(on_order_event)
                 subscribed_order_events = True
@@ -284,6 +329,7 @@ def evaluate(sc: Dict[str, Any], res: ShardResult, key: str) -> Dict[str, str]:
     ref_mc = None
     total_fills = 0
     cross = 0
+    saw_look_ahead = False
     for mc in POOLS:
         for rep in range(2):
             r = OneRun(sc, mc).run()
@@ -295,6 +341,7 @@ def evaluate(sc: Dict[str, Any], res: ShardResult, key: str) -> Dict[str, str]:
             res.count("fills_checked", r.counts["fills"])
             total_fills += r.counts["fills"]
             cross += r.cross_pair_orders
+            saw_look_ahead = saw_look_ahead or bool(r.look_ahead)
             for msg in r.look_ahead[:2]:
                 res.violate(Violation("C03", "fill_not_after_submission",
                                       f"max_concurrent={mc} sources={len(sc['pairs'])} setup={sc['setup']}: {msg}",
@@ -308,11 +355,12 @@ def evaluate(sc: Dict[str, Any], res: ShardResult, key: str) -> Dict[str, str]:
                     res.violate(Violation(
                         "C03", "history_depends_on_concurrency_or_run",
                         f"max_concurrent={mc} (repetition {rep}) differs from max_concurrent={ref_mc}: "
-                        f"{first_difference(ref_hist, r.history)}", scenario=sc, mechanism=classify(sc, min(mc, ref_mc))))
+                        f"{first_difference(ref_hist, r.history)}", scenario=sc,
+                        mechanism=classify(sc, min(mc, ref_mc)) if saw_look_ahead else ""))
                 res.count("digest_comparisons")
     res.evaluations += 1
-    if len(sc["pairs"]) > 1 and cross and total_fills:
-        shape = [len(sc["pairs"]), [s[0] for s in sc["setup"]], sc["suspend"], sc["lend"], sc["nsig"],
+    if (len(sc["pairs"]) > 1 and cross and total_fills) or (sc.get("variant") == "contention" and total_fills):
+        shape = [len(sc["pairs"]), [s[0] for s in sc["setup"]], sc["suspend"], sc["lend"], sc["nsig"], sc.get("scarce"), sc.get("variant"),
                  sorted((k, sum(len(a) for a in v)) for k, v in sc["scripts"].items())]
         res.nontrivial.add(common.digest(shape))
     res.sample({"pairs": sc["pairs"], "setup": sc["setup"], "suspend": sc["suspend"], "lend": sc["lend"],
